@@ -311,8 +311,12 @@ double Interpolation::Local_Minimum(double x_1, double x_2)
 	int i_2		   = Locate(x_2);
 	double result  = std::min(f_left, f_right);
 	// The pieces are monotone. The minimum is either at the ends or at one of the tabulated points inside [x_1,x_2].
-	int k_first = (x_values[i_1] >= x_1) ? i_1 : i_1 + 1;
-	int k_last	= (x_values[i_2 + 1] <= x_2) ? i_2 + 1 : ((x_values[i_2] <= x_2) ? i_2 : i_2 - 1);
+	int k_first = i_1;
+	int k_last	= i_2 + 1;
+	while(k_first <= k_last && x_values[k_first] < x_1)
+		k_first++;
+	while(k_last >= k_first && x_values[k_last] > x_2)
+		k_last--;
 	if(k_first <= k_last)
 		result = std::min(result, Scaled_Extremum(prefactor, function_values.begin() + k_first, function_values.begin() + k_last + 1, true));
 	return result;
@@ -327,8 +331,12 @@ double Interpolation::Local_Maximum(double x_1, double x_2)
 	int i_2		   = Locate(x_2);
 	double result  = std::max(f_left, f_right);
 	// The pieces are monotone. The maximum is either at the ends or at one of the tabulated points inside [x_1,x_2].
-	int k_first = (x_values[i_1] >= x_1) ? i_1 : i_1 + 1;
-	int k_last	= (x_values[i_2 + 1] <= x_2) ? i_2 + 1 : ((x_values[i_2] <= x_2) ? i_2 : i_2 - 1);
+	int k_first = i_1;
+	int k_last	= i_2 + 1;
+	while(k_first <= k_last && x_values[k_first] < x_1)
+		k_first++;
+	while(k_last >= k_first && x_values[k_last] > x_2)
+		k_last--;
 	if(k_first <= k_last)
 		result = std::max(result, Scaled_Extremum(prefactor, function_values.begin() + k_first, function_values.begin() + k_last + 1, false));
 	return result;
